@@ -5,7 +5,7 @@ patch=$1; prop=$2; scale=${3:-1.0}
 cd /repo || exit 2
 if [ -n "$(git status --porcelain --untracked-files=no)" ]; then echo "refusing: /repo has uncommitted changes"; exit 2; fi
 git apply "$patch" || { echo "patch does not apply"; exit 2; }
-cd /verif
+cd ${VERIF_DIR:-/verif}
 out=$(VERIF_SCALE=$scale ./check $prop quick 2>&1); rc=$?
 git -C /repo checkout -- . 
 echo "== $patch on $prop: rc=$rc"
